@@ -4257,6 +4257,15 @@ def _parse_simple_lines(
 def parse(src: str) -> Program:
     """Parse ``src`` into a :class:`~Reduino.transpile.ast.Program`."""
 
+    try:
+        return _parse_program(src)
+    except RecursionError as exc:
+        # e.g. an expression with thousands of chained operators, or a helper whose
+        # argument type grows on every recursive call
+        raise ValueError("script is nested too deeply to be transpiled") from exc
+
+
+def _parse_program(src: str) -> Program:
     lines = src.splitlines()
     setup_body: List[object] = []
     loop_body: List[object]  = []
